@@ -74,3 +74,13 @@ class FindNeighbouringProtoclustersFour(FindNeighbouringProtoclusters):
     params = {"protoclusters": ListOf(Rec("Protocluster", label="ProtoclusterSimpleExtent", location=FL), 4, 4)}
     requires = FindNeighbouringProtoclusters.__dict__["requires"]
     ensures = FindNeighbouringProtoclusters.__dict__["ensures"]
+
+
+@contract(f"{FILE}::_find_interleaved_candidates", props=["C05"])
+class FindInterleavedCandidatesFour(FindInterleavedCandidates):
+    """Four candidates with cores on one stretch each (with three, the extra first/last comparison hides a scan that stops early)."""
+    variant = True
+    params = {"candidates": ListOf(Rec("CandidateCluster", label="CandidateSimpleCores", _core_location=FL, location=FL,
+                                       _protoclusters=ListOf(MEMBER, 1, 1)), 4, 4)}
+    requires = FindInterleavedCandidates.__dict__["requires"]
+    ensures = FindInterleavedCandidates.__dict__["ensures"]
